@@ -258,6 +258,27 @@ def run(ctx):
                 with ctx.case(label=(text, fnames)):
                     check_pattern(ctx, toks, fnames, [n for n in names if n], api_sample=True, text=text)
                 ctx.count('bracket_templates')
+    # ---- a separator written in a file-name pattern is an ordinary character -----------------------
+    L = lambda x: tuple(('lit', c) for c in x)  # noqa: E731
+    after = [(('star',),), (('star',), ('star',)), (('q',), ('lit', 'b')), (('set', True, (('c', 'x'),), '!'), ('lit', 'b')),
+             (('set', False, (('c', '.'),), '!'), ('lit', 'b')), (('grp', '!', (L('b'),)),), (('grp', '@', ((('star',),), L('c'))),),
+             (('grp', '+', ((('q',),),)),), (('grp', '*', (L('b'), L('.'))),), (('grp', '?', (L('.b'),)), ('star',)), (('star',), ('lit', '/'), ('star',))]
+    si = 0
+    for pre in (L('a'), (), (('star',),), L('.a'), (('grp', '@', (L('a'),)),)):
+        for sl in (L('/'), L('//'), (('grp', '@', (L('/'),)),)):
+            for aft in after:
+                si += 1
+                if not ctx.mine(si):
+                    continue
+                toks = pre + sl + aft
+                if gen.ambiguous_adjacency(toks):
+                    continue
+                for fnames in flagsets(si):
+                    names = ['a/', 'a/b', 'a/.b', 'a/.c', 'a/c', 'a/.', 'a/..', '/', '/b', '/.b', '//', 'a//b', 'a//.b', 'a//', '.a/b', '.a/.b', '.a/',
+                             'a/b/c', 'a/b/.c', 'a/.b/c', 'x/.b', 'x/', 'a', 'ab', 'a/bb', 'a/xb', 'a/\nb', '/.', 'a/.bb', 'a/..b']
+                    with ctx.case(label=(gen.ser(toks), fnames)):
+                        check_pattern(ctx, toks, fnames, names, api_sample=True)
+                    ctx.count('slash_templates')
     # ---- EXTMATCH off ------------------------------------------------------------------
     for k in range(60 if quick else 600):
         if not ctx.mine(k):
